@@ -305,8 +305,8 @@ func c03Check(c *Case) []Violation {
 		case "weightedSum":
 			var unw float64
 			ref, unw = refWeightedSum(vals, types, weights)
-			if math.Abs(got-round8(ref)) > 2e-8 {
-				if math.Abs(got-round8(unw)) <= 2e-8 {
+			if math.Abs(got-round8(ref)) > c03Tol(ref) {
+				if math.Abs(got-round8(unw)) <= c03Tol(unw) {
 					vs = append(vs, viol(c, "C03/weightedSum/ignores-weights", "alternative %s: value %v equals the unweighted signed sum %v, not sum(weight*signed value) = %v", e.Alternative.ID, got, unw, ref))
 				} else {
 					vs = append(vs, viol(c, "C03/weightedSum/value", "alternative %s: value %v, expected %v (values %v weights %v)", e.Alternative.ID, got, ref, vals, weights))
@@ -326,7 +326,7 @@ func c03Check(c *Case) []Violation {
 				continue
 			}
 		}
-		if math.Abs(got-round8(ref)) > 2e-8 {
+		if math.Abs(got-round8(ref)) > c03Tol(ref) {
 			vs = append(vs, viol(c, "C03/"+method+"/value", "alternative %s: value %v, expected %v (values %v parameters %v)", e.Alternative.ID, got, ref, vals, weights))
 		}
 	}
@@ -341,8 +341,60 @@ func roundTrip(v interface{}) interface{} {
 	return o
 }
 
+// c03Large: values of large magnitude: near-ties that are far apart in absolute terms (1000 vs 1000.004: not tied under
+// the absolute 1e-5 rule) and aggregates beyond 2^63*1e-8.
+func c03Large(s *Shard) {
+	big := []float64{1000, 1000.004, 2000, 1e11, -1e11, 3}
+	for _, method := range utilMethods {
+		for n := 2; n <= 3; n++ {
+			if !s.Take() {
+				continue
+			}
+			cids := c03CritIDs(n)
+			var crits L
+			for _, id := range cids {
+				crits = append(crits, crit(id, "gain"))
+			}
+			var ka L
+			var chose []string
+			dims := make([]int, n)
+			for i := range dims {
+				dims[i] = len(big)
+			}
+			k := 0
+			Product(dims, func(idx []int) {
+				cv := map[string]float64{}
+				for i, id := range cids {
+					cv[id] = big[idx[i]]
+				}
+				id := fmt.Sprintf("v%d", k)
+				k++
+				ka = append(ka, alt(id, cv))
+				chose = append(chose, id)
+			})
+			w := M{}
+			if method == "choquetIntegral" {
+				for _, sub := range subsetsOf(cids) {
+					w[strings.Join(sub, ",")] = float64(len(sub)) / float64(n+1) * 0.75
+				}
+			} else {
+				for i, id := range cids {
+					w[id] = []float64{1, 0.5, 2}[i]
+				}
+			}
+			req := M{"preferenceFunction": method, "knownAlternatives": ka, "choseToMake": strs(chose), "criteria": crits, "methodParameters": M{"weights": w}}
+			c := &Case{Prop: "C03", Kind: "request", Req: req}
+			s.Evals++
+			s.Begin(c)
+			s.Report(c03Check(c))
+			s.Outcome(true, method, "large", n)
+		}
+	}
+}
+
 func c03Run(s *Shard) {
 	cur = s
+	c03Large(s)
 	for _, method := range utilMethods {
 		for n := 1; n <= 3; n++ {
 			for _, prefix := range c03Prefixes {
@@ -405,3 +457,6 @@ func c03Run(s *Shard) {
 	s.Bounds["values"] = c03Values
 	s.Bounds["weights"] = c03Weights
 }
+
+// c03Tol: the API's 1e-8 rounding plus a few ulps of the aggregate itself (large magnitudes).
+func c03Tol(ref float64) float64 { return 2e-8 + 8e-16*math.Abs(ref) }
